@@ -5,6 +5,7 @@ import RootSim.Model.Serial
 import RootSim.Model.Place
 import RootSim.Model.TimeWarp
 import RootSim.Model.TimeWarpG
+import RootSim.Model.TimeWarpD
 import Driver.Util
 /-!
 Driver modes `serial` and `par`: re-execution of a real ROOT-Sim run on the Lean models.
@@ -83,16 +84,23 @@ re-execution steps alongside the concrete run when the trace asks for it (`twsha
 afterwards the abstract history of the LP must equal the concrete one (committed part ++ current past entries, as contents);
 every GVT value adopted by a thread must be a lower bound of the abstract pending messages and anti-messages — the hypothesis of
 `C01Glue.reachable_hist`. A failure is appended to the `end` line (the implementation prints none, so it shows as a divergence).
-The one known concrete step that is not an abstract action (`Sys.gapAt`) suspends the shadow instead (see `TwgShadow`). -/
+The one known concrete step that is not an action of THIS machine (`Sys.gapAt`: speculation on a doomed entry) is an action of
+the machine of `Model/TimeWarpD.lean`, which the companion shadow `TwgShadow` steps (switched on together with this one): the
+content-level shadow hands the run over to it (`handed`) and checks nothing from that line on. -/
 structure TwShadow where
   on : Bool := false
   st : Option TWState := none
   /-- per LP: contents of the history entries released by fossil collection so far -/
   dropped : Array (List Event) := #[]
   bad : Option String := none
-  /-- set when the one known non-refining concrete step is recognised (`Sys.gapAt`, `C01Refine.cmpOk_is_needed`): no check is made
-  (and nothing is claimed) from that line on; reported on the `end` line as ` TW-SHADOW-SUSPENDED ...` -/
+  /-- set when the one known non-refining concrete step is recognised (`Sys.gapAt`, `C01Refine.cmpOk_is_needed`) and NO live
+  companion shadow can take the run over: no check is made (and nothing is claimed) from that line on; reported on the `end`
+  line as ` TW-SHADOW-SUSPENDED ...` -/
   suspended : Option String := none
+  /-- set when that step is recognised and the companion shadow of the machine with the code's straggler rule
+  (`Model/TimeWarpD.lean`) is live: the content-level machine cannot follow, the companion does; reported on the `end` line as
+  ` TW-SHADOW-HANDOVER ...` -/
+  handed : Option String := none
   steps : Nat := 0
   gvtChecks : Nat := 0
 
@@ -105,10 +113,15 @@ the action is enabled; afterwards the abstract history of the LP equals the conc
 (content, creation step) pairs; every adopted GVT is a lower bound of the tagged pending messages and anti-messages (hypothesis of
 `C01GlueV2.reachable_hist_V2`). A failure is appended to the `end` line as ` TWG-SHADOW-FAILED ...`.
 
-The one known case in which a concrete `process_msg` is NOT an abstract action (`C01Refine.cmpOk_is_needed`: the straggler test
-reads the ANTI bit that the sender of an already processed message has set concurrently, so a same-time message that is before
-the flagged one by content is executed AFTER it) is recognised exactly (`gapAt`), the shadow is SUSPENDED from that line on
-(nothing after it is claimed) and ` TWG-SHADOW-SUSPENDED ...` is appended to the `end` line; `tools/props/runlib.py` counts these. -/
+The stepped function is `TWD.step?` (`Model/TimeWarpD.lean`: the same machine with the straggler rule of the CODE; theorems
+`Props/C01GlueD.lean`, `C01GlueD.step_function_exact_D`); a TWD action that keeps no extra entry IS the TWG action
+(`C01GlueD.twg_action_is_twd_action`). The one case in which a concrete `process_msg` is NOT a TWG action
+(`C01Refine.cmpOk_is_needed`: the straggler test reads the ANTI bit that the sender of an already processed message has set
+concurrently, so a same-time message that is before the flagged one by content is executed AFTER it) is a TWD action: the `exec`
+is called with the split point the code used (`extra` = number of entries the concrete backward scan kept beyond the content
+rule); `TWD.step?` accepts it only if the last kept entry is doomed IN THE ABSTRACT STATE (its anti-message, content + creation
+step, is in `antis`) and has the time stamp of the message. The number of such steps is reported on the `end` line
+(` TWD-SHADOW-SPECULATED ...`; `tools/props/runlib.py` counts them). -/
 structure TwgShadow where
   on : Bool := false
   st : Option TWGState := none
@@ -118,6 +131,9 @@ structure TwgShadow where
   suspended : Option String := none
   steps : Nat := 0
   gvtChecks : Nat := 0
+  /-- number of `exec` steps that kept entries beyond the content rule (speculation on a doomed entry), and the first of them -/
+  doomedSteps : Nat := 0
+  firstDoomed : Option String := none
 
 structure Sys where
   tw : TwShadow := {}
@@ -205,7 +221,7 @@ def Sys.twPastOk (s : Sys) (lp : Nat) : Bool :=
   | none => true
 
 def Sys.twAct (s : Sys) (a : TW.Action) (what : String) : Sys :=
-  if !s.tw.on || s.tw.bad.isSome || s.tw.suspended.isSome then s else
+  if !s.tw.on || s.tw.bad.isSome || s.tw.suspended.isSome || s.tw.handed.isSome then s else
   match s.tw.st with
   | none => s
   | some t =>
@@ -214,7 +230,7 @@ def Sys.twAct (s : Sys) (a : TW.Action) (what : String) : Sys :=
     | some t' => { s with tw := { s.tw with st := some t', steps := s.tw.steps + 1 } }
 
 def Sys.twCheckPast (s : Sys) (lp : Nat) (what : String) : Sys :=
-  if !s.tw.on || s.tw.bad.isSome || s.tw.suspended.isSome then s else
+  if !s.tw.on || s.tw.bad.isSome || s.tw.suspended.isSome || s.tw.handed.isSome then s else
   if s.twPastOk lp then s else s.twFail s!"{what}: abstract and concrete history of LP {lp} differ"
 
 /-! ### shadow of the instrumented machine (`TWG`) -/
@@ -242,12 +258,12 @@ def Sys.twgPastOk (s : Sys) (lp : Nat) : Bool :=
       && (h.zip (h.drop 1)).all (fun (a, b) => decide (a.pr < b.pr))
   | none => true
 
-def Sys.twgAct (s : Sys) (a : TWG.Action) (what : String) : Sys :=
+def Sys.twgAct (s : Sys) (a : TWD.Action) (what : String) : Sys :=
   if !s.twgLive then s else
   match s.twg.st with
   | none => s
   | some t =>
-    match TWG.step? s.twModel t a with
+    match TWD.step? s.twModel t a with
     | none => s.twgFail s!"{what}: abstract action not enabled"
     | some t' => { s with twg := { s.twg with st := some t', steps := s.twg.steps + 1 } }
 
@@ -396,7 +412,10 @@ def onExtract (s : Sys) (r m f : Nat) : Sys :=
     let s := if !s.tw.on then s else
       if p.cont then
         match gap with
-        | some z => if s.tw.suspended.isSome then s else { s with tw := { s.tw with suspended := some (gapWhy m z) } }
+        | some z =>
+          if s.tw.suspended.isSome || s.tw.handed.isSome || s.tw.bad.isSome then s
+          else if s.twgLive && s.twg.st.isSome then { s with tw := { s.tw with handed := some (gapWhy m z) } }
+          else { s with tw := { s.tw with suspended := some (gapWhy m z) } }
         | none => s.twAct (.exec lpI (s.ev m)) s!"ext {m} (exec)"
       else if f == 1 then s.twAct (.annihilate (s.ev m)) s!"ext {m} (annihilate)"
       else if f == 3 then
@@ -409,9 +428,18 @@ def onExtract (s : Sys) (r m f : Nat) : Sys :=
     let s := if !s.twgLive then s else
       let cr := (s.mrec m).cr
       if p.cont then
-        match gap with
-        | some z => { s with twg := { s.twg with suspended := some (gapWhy m z) } }
-        | none => s.twgAct (.exec lpI (s.ev m) cr) s!"ext {m} (exec cr={cr})"
+        -- the split point the code used: how many entries beyond the content rule the concrete backward scan kept
+        let kept := pastMsgs p.st.lp.hist
+        let keptTotal := (s.twg.dropped.getD lpI []).length + kept.length
+        let extra := match s.twg.st with
+          | some t => match t.past lpI with
+            | _ :: T => (keptTotal - 1) - TWG.keepLen (s.ev m) T
+            | [] => 0
+          | none => 0
+        let s := if extra == 0 then s else
+          { s with twg := { s.twg with doomedSteps := s.twg.doomedSteps + 1,
+                                       firstDoomed := s.twg.firstDoomed.orElse (fun _ => some (gapWhy m (kept.getLast?.getD 0))) } }
+        s.twgAct (.exec lpI (s.ev m) cr extra) s!"ext {m} (exec cr={cr} extra={extra})"
       else if f == 1 then s.twgAct (.annihilate (s.ev m) cr) s!"ext {m} (annihilate cr={cr})"
       else if f == 3 then
         match pastBefore.idxOf? m with
@@ -519,7 +547,9 @@ def parStep (s : Sys) (toks : List String) : Sys × String :=
               termT := Array.replicate (nat! lps) tNone,
               committed := Array.replicate (nat! lps) 0 }, "model ok")
   | ["period", _] => (s, "period")
-  | ["twshadow"] => ({ s with tw := { s.tw with on := true } }, "twshadow ok")
+  | ["twshadow"] =>
+    -- the companion shadow of the machine with the code's straggler rule is switched on too (hand-over at `Sys.gapAt`)
+    ({ s with tw := { s.tw with on := true }, twg := { s.twg with on := true } }, "twshadow ok")
   | ["twgshadow"] => ({ s with twg := { s.twg with on := true } }, "twgshadow ok")
   | ["alloc", r, o] =>
     let r := nat! r; let o := nat! o
@@ -624,7 +654,7 @@ def parStep (s : Sys) (toks : List String) : Sys × String :=
         let last := lst.getD (lst.size - 1) 0
         ((lst.set! i last).pop, fr ++ [Exp.free m])
       else (lst, fr)) (t.atGvt, [])
-    let s := match s.tw.on && s.tw.suspended.isNone, s.tw.st with
+    let s := match s.tw.on && s.tw.suspended.isNone && s.tw.handed.isNone, s.tw.st with
       | true, some tws =>
         let s := { s with tw := { s.tw with gvtChecks := s.tw.gvtChecks + 1 } }
         if tq ≥ tMax || TW.lowerBound tws tq then s
@@ -673,13 +703,17 @@ def parStep (s : Sys) (toks : List String) : Sys × String :=
   | "hang" :: rest => (s, " ".intercalate ("hang" :: rest))
   | ["end"] =>
     let leaked := (List.range s.pool.size).filter (fun m => !(s.mrec m).freed)
-    let twv := match s.tw.on, s.tw.bad, s.tw.suspended with
-      | true, some why, _ => s!" TW-SHADOW-FAILED after {s.tw.steps} abstract steps: {why}"
-      | true, none, some why => s!" TW-SHADOW-SUSPENDED after {s.tw.steps} abstract steps: {why}"
-      | _, _, _ => ""
+    let twv := match s.tw.on, s.tw.bad, s.tw.suspended, s.tw.handed with
+      | true, some why, _, _ => s!" TW-SHADOW-FAILED after {s.tw.steps} abstract steps: {why}"
+      | true, none, some why, _ => s!" TW-SHADOW-SUSPENDED after {s.tw.steps} abstract steps: {why}"
+      | true, none, none, some why => s!" TW-SHADOW-HANDOVER after {s.tw.steps} abstract steps: {why}"
+      | _, _, _, _ => ""
     let twgv := match s.twg.on, s.twg.bad, s.twg.suspended with
       | true, some why, _ => s!" TWG-SHADOW-FAILED after {s.twg.steps} abstract steps: {why}"
       | true, none, some why => s!" TWG-SHADOW-SUSPENDED after {s.twg.steps} abstract steps: {why}"
+      | true, none, none =>
+        if s.twg.doomedSteps == 0 then "" else
+          s!" TWD-SHADOW-SPECULATED {s.twg.doomedSteps} of {s.twg.steps} abstract steps: {s.twg.firstDoomed.getD ""}"
       | _, _, _ => ""
     (s, s!"end allocs={s.allocs} frees={s.frees} leaked={leaked.length}{twv}{twgv}")
   | _ => (s, "bad-op")
